@@ -188,6 +188,60 @@ fn containers(out: &mut Out, rng0: &mut Rng, tier: &Tier) {
                 }
             }};
         }
+        // interior views (start > 0, end < len): rc of the view, its k-mers through the iterator AND through
+        // get_kmer(i) at every position, and sub-slices of the rc view (rc(v)[i..j] = rc(v[n-j..n-i]))
+        if len >= 2 {
+            for t in 0..4usize {
+                let a = match t {
+                    0 => 1,
+                    1 => len / 2,
+                    _ => rng.below(len),
+                };
+                let c = match t {
+                    0 => len,
+                    1 => len - (len > 2) as usize,
+                    _ => a + rng.below(len - a + 1),
+                };
+                let v = ds.slice(a, c);
+                let vb = &bs[a..c];
+                let n = vb.len();
+                let vr = v.rc();
+                out.case("s.rc", l(vec![dna(vb)]), dna(&vr.bytes()));
+                out.case("s.rc", l(vec![dna(&vr.bytes())]), dna(&vr.rc().bytes()));
+                out.case("s.rc", l(vec![dna(vb)]), dna(&vr.to_owned().to_bytes()));
+                macro_rules! vk {
+                    ($t:ty) => {{
+                        let kk = <$t>::k();
+                        let ks: Vec<V> = vr.iter_kmers::<$t>().map(|q| dna(&bases_of(&q))).collect();
+                        out.case("s.kmers_of_rc", l(vec![nu(kk), dna(vb)]), l(ks));
+                        if n >= kk {
+                            let ks: Vec<V> = (0..n - kk + 1)
+                                .map(|i| {
+                                    let q: $t = vr.get_kmer(i);
+                                    dna(&bases_of(&q))
+                                })
+                                .collect();
+                            out.case("s.kmers_of_rc", l(vec![nu(kk), dna(vb)]), l(ks));
+                        }
+                    }};
+                }
+                vk!(debruijn::kmer::Kmer4);
+                vk!(debruijn::kmer::Kmer12);
+                vk!(debruijn::kmer::Kmer32);
+                vk!(debruijn::kmer::Kmer48);
+                for _ in 0..3 {
+                    let i = rng.below(n + 1);
+                    let j = i + rng.below(n - i + 1);
+                    let sub = vr.slice(i, j);
+                    out.case("s.rc", l(vec![dna(&vb[n - j..n - i])]), dna(&sub.bytes()));
+                    out.case("s.rc", l(vec![dna(&sub.bytes())]), dna(&sub.rc().bytes()));
+                    if j - i >= 4 {
+                        let ks: Vec<V> = sub.iter_kmers::<debruijn::kmer::Kmer4>().map(|q| dna(&bases_of(&q))).collect();
+                        out.case("s.kmers_of_rc", l(vec![nu(4), dna(&vb[n - j..n - i])]), l(ks));
+                    }
+                }
+            }
+        }
         kk!(debruijn::kmer::Kmer4);
         kk!(debruijn::kmer::Kmer5);
         kk!(debruijn::kmer::Kmer16);
